@@ -92,6 +92,7 @@ class ArmWalker:
         self.events = []
         self.guards = []                    # stack of textual guards (non-kind conditions)
         self.loop = []                      # stack of (direction, over)
+        self.dead = False                   # the arm has ended on this path (break/return/throw)
 
     # -- classification of container expressions ------------------------------------------------
     def cls_of(self, e, depth=0):
@@ -167,6 +168,8 @@ class ArmWalker:
     # -- statement walk ------------------------------------------------------------------------
     def walk(self, stmts):
         for s in stmts:
+            if self.dead:
+                return
             self.stmt(s)
 
     def stmt(self, s):
@@ -176,7 +179,11 @@ class ArmWalker:
         if k == 'CompoundStmt':
             self.walk(s.kids)
             return
-        if k in ('BreakStmt', 'NullStmt', 'ContinueStmt'):
+        if k == 'BreakStmt':
+            if not self.loop:
+                self.dead = True
+            return
+        if k in ('NullStmt', 'ContinueStmt'):
             return
         if k == 'DeclStmt':
             for v in s.kids:
@@ -200,18 +207,33 @@ class ArmWalker:
             else:
                 self.expr(cond)
                 # validation: a branch that only throws
+                deads = []
+                early = []
                 for br, pol in ((then, True), (els, False)):
                     if br is None:
+                        deads.append(False)
                         continue
                     th = [t for t in br.walk() if t.kind == 'CXXThrowExpr']
                     if th and _only_throws(br):
                         self.events.append(('validate', norm_cond(cond, pol, self), thrown_type(th[0]), s))
+                        deads.append(True)
                     elif _only_returns_false(br):
                         self.events.append(('validate', norm_cond(cond, pol, self), 'return-false', s))
+                        deads.append(True)
                     else:
                         self.guards.append((norm_cond(cond, pol, self), cond, pol))
+                        saved = self.dead
                         self.stmt(br)
+                        deads.append(self.dead)
+                        if self.dead and not saved:
+                            early.append((norm_cond(cond, not pol, self), cond, not pol))
+                        self.dead = saved
                         self.guards.pop()
+                if all(deads) and len(deads) == 2:
+                    self.dead = True
+                # what follows an early exit runs under the negated condition
+                for g in early:
+                    self.guards.append(g)
             return
         if k == 'ForStmt':
             init, condvar, cond, inc, body = (s.kids + [None] * 5)[:5]
@@ -251,9 +273,11 @@ class ArmWalker:
             if s.kids and s.kids[0] is not None:
                 self.expr(s.kids[0])
             self.events.append(('return', s))
+            self.dead = True
             return
         if k == 'CXXThrowExpr':
             self.events.append(('throw', thrown_type(s), s))
+            self.dead = True
             return
         if k in ('SwitchStmt', 'CXXTryStmt'):
             for c in s.kids:
